@@ -212,51 +212,68 @@ def check_merge_loops(ctx):
     the accumulation / copy for the key"""
     db = ctx.db
     rule = 'R-MUST/merge-covers-every-key'
+    stage = ('diff_exp.precompute_from_anndata:'
+             '_precompute_summary_stats_from_h5ad_and_lookup')
     specs = [
-        ('diff_exp.precompute_from_anndata:_process_chunk',
-         'buffer_dict', 'aug'),
-        ('diff_exp.precompute_from_anndata:'
-         '_precompute_summary_stats_from_h5ad_and_lookup',
-         'final_output', 'aug'),
-        ('diff_exp.precompute_from_anndata:'
-         '_precompute_summary_stats_from_h5ad_and_lookup',
-         'out_file', 'store'),
+        ('diff_exp.precompute_from_anndata:_process_chunk', 'aug'),
+        (stage, 'aug'),
+        (stage, 'store'),
     ]
-    for (q, target, how) in specs:
+    merge_loops = []
+    for (q, how) in specs:
         fi = db.fn(q)
         ctx.touch(fi)
         cfg = cfg_of(fi)
         rd = rd_of(fi)
+        with_names = set()
+        for w in ast.walk(fi.node):
+            if isinstance(w, ast.With):
+                for it in w.items:
+                    if isinstance(it.optional_vars, ast.Name):
+                        with_names.add(it.optional_vars.id)
         loops = []
         for n in cfg.nodes:
             if n.kind != 'for' or n.id not in rd.live:
                 continue
             tvars = {x.id for x in ast.walk(n.ast.target)
                      if isinstance(x, ast.Name)}
-            acts = set()
+            acts = dict()
             for sub_n in cfg.nodes:
                 if sub_n.id not in rd.live or sub_n.kind != 'stmt':
                     continue
                 s = sub_n.ast
                 if not _inside(s, n.ast):
                     continue
+                # the accumulation `D[k][...] += ...` / the copy
+                # `handle[k][...] = D[k]` for the key of this loop; the
+                # containers are found by shape, not by name
                 if how == 'aug' and isinstance(s, ast.AugAssign) \
-                        and isinstance(s.op, ast.Add):
+                        and isinstance(s.op, ast.Add) and isinstance(
+                            s.target, ast.Subscript):
                     b = _base(s.target)
-                    if b == target and _mentions(s.target, tvars):
-                        acts.add(sub_n.id)
+                    if b is not None and b not in with_names \
+                            and _mentions(s.target, tvars):
+                        acts[sub_n.id] = b
                 if how == 'store' and isinstance(s, ast.Assign):
                     for tg in s.targets:
-                        if isinstance(tg, ast.Subscript) and _base(
-                                tg) == target and _mentions(tg, tvars):
-                            acts.add(sub_n.id)
+                        if isinstance(tg, ast.Subscript) and isinstance(
+                                tg.value, ast.Subscript) and _base(
+                                tg) in with_names and _mentions(tg, tvars):
+                            acts[sub_n.id] = _base(tg)
             if acts:
                 loops.append((n, acts))
         if not loops:
-            ctx.fail(rule, f'{q}:{target}', fi.loc(),
-                     f'no loop accumulating into `{target}` per key found')
+            ctx.fail(rule, f'{q}:{how}', fi.loc(),
+                     'no loop over the statistic keys that '
+                     + ('accumulates (`+=`) into a per-key table'
+                        if how == 'aug' else
+                        'copies the per-key table into the output file')
+                     + ' was found')
             continue
         for (n, acts) in loops:
+            target = sorted(set(acts.values()))[0]
+            if q == stage and how == 'aug':
+                merge_loops.append(n.ast)
             body_entries = [t for (t, lab) in cfg.succ[n.id]
                             if lab == 'iter']
             ok = True
@@ -270,24 +287,34 @@ def check_merge_loops(ctx):
                 if not okp:
                     ok = False
                     wit = cfg.fmt_path(p)
-            ctx.ob(rule, f'{q}:{target}:L{n.lineno}', fi.loc(n.ast), ok,
+            ctx.ob(rule, f'{q}:{how}:{unparse(n.ast.iter)}',
+                   fi.loc(n.ast), ok,
                    f'every iteration over the keys updates `{target}`'
                    if ok else
                    f'an iteration of `{n.text()}` can skip the update of '
                    f'`{target}`: that statistic is dropped for some key',
                    witness=wit)
     # the worker buffers are combined over all buffer files: the loop
-    # iterates the list the dispatch loop appended to (order: C04)
-    fi = db.fn('diff_exp.precompute_from_anndata:'
-               '_precompute_summary_stats_from_h5ad_and_lookup')
+    # around the accumulation iterates the list the dispatch loop
+    # appended to (its order is a C04 matter)
+    fi = db.fn(stage)
+    rd = rd_of(fi)
     ok = False
-    for n in ast.walk(fi.node):
-        if isinstance(n, ast.For) and isinstance(n.iter, ast.Name) \
-                and n.iter.id == 'buffer_path_list':
-            ok = True
-    ctx.ob(rule, f'{fi.qual}:buffer_path_list', fi.loc(), ok,
+    for lp in merge_loops:
+        outer = getattr(lp, '_parent', None)
+        while outer is not None and not isinstance(
+                outer, (ast.For, ast.FunctionDef)):
+            outer = getattr(outer, '_parent', None)
+        if isinstance(outer, ast.For) and isinstance(outer.iter, ast.Name):
+            for (mn, astn, how) in rd.muts.get(outer.iter.id, []):
+                if isinstance(astn, ast.Call) and isinstance(
+                        astn.func, ast.Attribute) \
+                        and astn.func.attr == 'append':
+                    ok = True
+    ctx.ob(rule, f'{fi.qual}:all-buffers', fi.loc(), ok,
            'every worker buffer is merged' if ok else
-           'the merge does not iterate buffer_path_list')
+           'the merge does not iterate the list of buffer files the '
+           'dispatch loop filled')
 
 
 def _inside(s, loop):
@@ -508,17 +535,38 @@ def check_sentinel(ctx):
     # the sentinel is not a valid row
     lk = db.fn('diff_exp.precompute_from_anndata:'
                '_precompute_summary_stats_from_h5ad_and_lookup')
-    val = None
+    # the value handed to the workers' `bad_row_idx` parameter (directly or
+    # through the kwargs dict of a Process), resolved through the reaching
+    # definitions of whatever local carries it
+    lcfg = cfg_of(lk)
+    lrd = rd_of(lk)
+    exprs = []
     for n in ast.walk(lk.node):
-        if isinstance(n, ast.Assign) and isinstance(
-                n.targets[0], ast.Name) \
-                and n.targets[0].id == 'bad_row_idx':
-            v = n.value
-            if isinstance(v, ast.UnaryOp) and isinstance(
-                    v.op, ast.USub) and isinstance(v.operand, ast.Constant):
-                val = -v.operand.value
-            elif isinstance(v, ast.Constant):
-                val = v.value
+        if isinstance(n, ast.Call):
+            exprs += [k.value for k in n.keywords if k.arg == 'bad_row_idx']
+        elif isinstance(n, ast.Dict):
+            exprs += [v for (k, v) in zip(n.keys, n.values)
+                      if isinstance(k, ast.Constant)
+                      and k.value == 'bad_row_idx']
+
+    def _const(v):
+        if isinstance(v, ast.UnaryOp) and isinstance(
+                v.op, ast.USub) and isinstance(v.operand, ast.Constant):
+            return -v.operand.value
+        if isinstance(v, ast.Constant):
+            return v.value
+        return None
+    vals = set()
+    for e in exprs:
+        if isinstance(e, ast.Name):
+            ns = [x for x in lcfg.node_of_expr(e) if x.id in lrd.live]
+            for d in (lrd.reaching(e.id, ns[0].id) if ns else []):
+                vals.add(_const(getattr(d, 'value', None)))
+        else:
+            vals.add(_const(e))
+    val = None
+    if vals and all(isinstance(v, int) for v in vals):
+        val = max(vals)
     ok = isinstance(val, int) and val < 0
     ctx.ob(rule, 'bad_row_idx:value', lk.loc(), ok,
            f'the sentinel {val} is negative, hence not an output row'
